@@ -8,6 +8,7 @@ package main
 
 import (
 	"bytes"
+	"context"
 	"encoding/json"
 	"fmt"
 	"os"
@@ -378,12 +379,17 @@ func concStage(env *vh.Env, rep *vh.Report, rng *vh.Rng) {
 			scenario = "readers"
 			per = 60 + rng.Intn(100)
 		}
-		cmd := exec.Command(self, "-driver", env.Driver, "-tier", env.Tier)
+		// the child lives < 10 s; the deadline only bounds a hang (goroutines blocked for good)
+		ctx, cancel := context.WithTimeout(context.Background(), 600*time.Second)
+		cmd := exec.CommandContext(ctx, self, "-driver", env.Driver, "-tier", env.Tier)
+		cmd.WaitDelay = 5 * time.Second
 		cmd.Env = append(os.Environ(), "C17_CHILD=conc", "C17_SCENARIO="+scenario, fmt.Sprintf("C17_WRITERS=%d", writers), fmt.Sprintf("C17_PER=%d", per),
 			fmt.Sprintf("C17_FIRST=%d", ch*1000+int(env.Seed)*17), fmt.Sprintf("C17_BUDGET_MS=%d", budget), "GORACE=halt_on_error=0 exitcode=0")
 		var so, se bytes.Buffer
 		cmd.Stdout, cmd.Stderr = &so, &se
 		runErr := cmd.Run()
+		timedOut := ctx.Err() != nil
+		cancel()
 		var out concOut
 		got := false
 		for _, ln := range strings.Split(so.String(), "\n") {
@@ -392,6 +398,11 @@ func concStage(env *vh.Env, rep *vh.Report, rng *vh.Rng) {
 					got = true
 				}
 			}
+		}
+		if !got && timedOut {
+			rep.Fail("property", "FileLogger.concurrent:hang", fmt.Sprintf("the concurrent stage (%s: %d goroutines x %d lines) did not finish within 600 s (it normally ends within 10 s): calls of the logger block for good", scenario, writers, per),
+				map[string]interface{}{"stage": "conc", "scenario": scenario, "writers": writers, "per": per})
+			continue
 		}
 		if !got {
 			rep.Fail("property", "FileLogger.concurrent:crash", fmt.Sprintf("the concurrent stage died: %v: %s", runErr, vh.Clip(se.String(), 1500)),
